@@ -8,7 +8,10 @@ import (
 	"math/rand"
 	"os"
 
+	"fmt"
+
 	"github.com/wader/fq/internal/verif/kit"
+	"github.com/wader/fq/internal/verif/ref"
 	"github.com/wader/fq/internal/verif/treelib"
 )
 
@@ -110,6 +113,45 @@ func main() {
 			var toks []treelib.Tok
 			gen(rng, 3, 1+rng.Intn(6), L, &toks)
 			runOne(treelib.Prog{Len: L, Force: rng.Intn(4) == 0, Prog: toks}, seed*7919+int64(i), out)
+		}
+		out.Close()
+	case "bigprog":
+		// bigprog <n> <events.ndjson>: trees of 1000..5000 leaves with skipped bits and re-read (overlapping) bits:
+		// size-dependent paths of gap filling and post-processing. Too large for TLC: judged by harness/ref (cross-checked elsewhere).
+		n := kit.Atoi(os.Args[2])
+		out := kit.NewOut(os.Args[3])
+		rng := rand.New(rand.NewSource(seed))
+		for i := 0; i < n; i++ {
+			leaves := 1000 + rng.Intn(4000)
+			ws := []int64{1, 1, 2, 3, 8}
+			var toks []treelib.Tok
+			total := int64(0)
+			skip := ws[rng.Intn(len(ws))]   // bits never read
+			rescan := ws[rng.Intn(len(ws))] // bits read twice
+			skipAt, rescanAt := rng.Intn(leaves), rng.Intn(leaves)
+			toks = append(toks, treelib.Tok{K: "array", Name: "a"})
+			for k := 0; k < leaves; k++ {
+				w := ws[rng.Intn(len(ws))]
+				if k == skipAt && rng.Intn(4) != 0 {
+					toks = append(toks, treelib.Tok{K: "seek", P: total + skip})
+					total += skip
+				}
+				if k == rescanAt && total >= rescan && rng.Intn(4) != 0 {
+					toks = append(toks, treelib.Tok{K: "seekfn", P: total - rescan}, treelib.Tok{K: "leaf", Name: "r", N: rescan}, treelib.Tok{K: "end"})
+				}
+				toks = append(toks, treelib.Tok{K: "leaf", Name: names[rng.Intn(3)], N: w})
+				total += w
+			}
+			toks = append(toks, treelib.Tok{K: "end"})
+			L := total + int64(rng.Intn(3))*skip // sometimes an undecoded tail
+			root, pm := treelib.RunProg(treelib.Prog{Len: L, Prog: toks}, seed*31+int64(i))
+			ev := map[string]any{"what": fmt.Sprintf("array of %d leaves, %d bits skipped at leaf %d, %d bits re-read at leaf %d, buffer %d bits (decoded %d)", leaves, skip, skipAt, rescan, rescanAt, L, total),
+				"panic": pm, "nnodes": 0, "refwhy": "ok", "refgap": "ok"}
+			if root != nil {
+				nodes := treelib.Flatten(root, false, 0)
+				ev["nnodes"], ev["refwhy"], ev["refgap"] = len(nodes), ref.Why(nodes), ref.GapSig(nodes)
+			}
+			out.Emit(ev)
 		}
 		out.Close()
 	default:
